@@ -1186,7 +1186,10 @@ func (c *compiler) evalIndexCallee(rv reflect.Value, node *ast.IndexExpression) 
 	//If key doesn't contain "." this means we got person[0].Name[0]
 	//If key does contain "." then indexed field that needs to be accessed will be set in Node.left and Node.Callee
 	key := node.Left.String()
-	if strings.Contains(key, ".") {
+	if id := callReceiver(node.Callee); id != nil {
+		// a method call looks its receiver up under the name the parser gave it
+		key = id.Value
+	} else if strings.Contains(key, ".") {
 		ggg := strings.Split(key, ".")
 		callee := node.Callee.String()
 
@@ -1215,6 +1218,22 @@ func (c *compiler) evalIndexCallee(rv reflect.Value, node *ast.IndexExpression) 
 	}
 
 	return vvs, nil
+}
+
+// callReceiver is the plain identifier a method call uses as its receiver, if
+// node is such a call.
+func callReceiver(node ast.Expression) *ast.Identifier {
+	ce, ok := node.(*ast.CallExpression)
+	if !ok {
+		return nil
+	}
+
+	id, ok := ce.Callee.(*ast.Identifier)
+	if !ok || id.Callee != nil {
+		return nil
+	}
+
+	return id
 }
 
 func unsafeGetBytes(s string) []byte {
